@@ -972,7 +972,11 @@ func (bc *BlockChain) WriteBlockWithState(block *types.Block, receipts []*types.
 		triedb.Reference(root, common.Hash{}) // metadata reference to keep trie alive
 		bc.triegc.Push(root, -int64(block.NumberU64()))
 
-		if current := block.NumberU64(); current > triesInMemory {
+		// The flush/GC bookkeeping below is keyed by the canonical header 128 blocks
+		// back. While a long side branch is being executed on top of a shorter
+		// canonical chain that header does not exist (yet): skip the bookkeeping
+		// for this block instead of refusing a valid block with "header nil".
+		if current := block.NumberU64(); current > triesInMemory && bc.GetHeaderByNumber(current-triesInMemory) != nil {
 			// Find the next state trie we need to commit
 			header := bc.GetHeaderByNumber(current - triesInMemory)
 			if header == nil {
